@@ -35,7 +35,10 @@ FHistory(r) ==
                      f2 == IF \E m \in memo : m[1] = st.before /\ m[2] = st.src /\ m[3] # st.fp
                            THEN {<<"C08", r.id, k, 0, "same-config-and-source-different-program">>} ELSE {}
                      f3 == IF st.panic THEN {<<"C08", r.id, k, 0, "compile-panics">>} ELSE {}
-                 IN walk(k + 1, memo \cup {<<st.before, st.src, st.fp>>}, acc \cup f1 \cup f2 \cup f3)
+                     \* the program is rendered again at the end of the history: no later compilation, copy or
+                     \* caller-side change may have altered what an already compiled program is or does
+                     f4 == IF st.fpend # st.fp THEN {<<"C08", r.id, k, 0, "a-later-step-changed-an-already-compiled-program">>} ELSE {}
+                 IN walk(k + 1, memo \cup {<<st.before, st.src, st.fp>>}, acc \cup f1 \cup f2 \cup f3 \cup f4)
             [] st.op \in {"copy", "extend"} ->
                  walk(k + 1, memo,
                       acc \cup (IF st.before # st.after THEN {<<"C08", r.id, k, 0, "mutating-a-copy-changed-its-source">>} ELSE {})
